@@ -43,6 +43,55 @@ import time
 
 from werkzeug import serving as _serving
 
+# Failures this module reports on the unchanged tree (/repo at 2980781), three root causes.  The text below is
+# what bounded/FINDINGS_C19.md is meant to hold (replay any of them with replay({"obligation": "bounded:<check>",
+# "inputs": <failure input>})).
+FINDINGS = r"""
+1. dechunk_truncated_framing_as_data / dechunk_truncated_buffer / dechunk_truncated_wrong_exception
+   (/ dechunk_truncated_not_reported in the thorough tier)
+   serving.DechunkedInput.readinto: `buf[read:read+n] = self._rfile.read(n)` (and the `buf[read:] = ...` twin) assume
+   rfile.read(n) returns n bytes; at EOF it returns fewer, `_len` and `read` advance by n anyway.
+   * wire b"5\r\nab", DechunkedInput(BytesIO(wire)).read(4)  -> b"ab\x00\x7f" (2 real bytes + 2 bytes of the
+     bytearray's spare capacity: RawIOBase.read builds its result from n bytes of a bytearray readinto shrank), the
+     OSError comes only on the next read.  Expected: at most b"ab", then OSError.
+   * wire b"2" (size line then EOF), .read(1) -> b"\x00" then OSError.  Expected: OSError, nothing delivered.
+   * wire b"5\r\nab", .readinto(bytearray(4)) -> returns 4, caller's bytearray now has length 2.
+   * wire b"1", .readinto(memoryview(bytearray(1))), or io.BufferedReader(DechunkedInput(BytesIO(b"5\r\nab")), 4)
+     .read(2) -> ValueError("memoryview assignment: lvalue and rvalue have different structures").  Expected OSError.
+   * thorough tier only (random corruption), also as dechunk_truncated_not_reported: a large announced size makes
+     this practically endless - wire b"7baba0bb\n0\n\n" (the line end after a size was dropped, so the size line
+     reads 0x7baba0bb) read with read(3), read(1), read(8), ...: after the 3 real bytes more than 5000 reads return
+     NUL bytes and no OSError arrives (it would after 2 GB of invented data).
+   * through the real server (socket pair): POST, Transfer-Encoding: chunked, body b"5\r\nab" + EOF, application
+     calls environ["wsgi.input"].read(4) -> receives b"ab\x00\x7f", then OSError.
+   In the stated domain (truncated chunk headers / bodies, "never delivered as body data", "reported as an I/O
+   error").  DESIGN section 10 item 14 knows the ValueError; the bytearray variant is worse than DESIGN section 8
+   says: invented bytes reach the application before the OSError.  Judgement: genuine defect; fix = read into a
+   temporary, raise OSError when short, then store.
+2. dechunk_lenient_size
+   read_chunk_len uses int(line.strip(), 16) on the latin-1 decoded line: a sign, a 0x prefix, '_' separators and
+   every Unicode white space are accepted.  b"0x3\r\nabc\r\n0\r\n\r\n", b"+3\r\nabc...", b"1_0\r\n"+16 bytes,
+   b"\x0b3\r\nabc...", b"\xa03...", b"\r03\nabc..." deliver the data with a clean EOF; b"3\r\nabc\r\n-0\r\n\r\n"
+   takes "-0" as the last chunk.  Expected: OSError (RFC 9112 7.1 chunk-size = 1*HEXDIG; SP/HT around it and bare LF
+   are tolerated by the reference).  In the domain under the plain reading of "non-hex chunk headers"; not what DESIGN
+   section 8 uses for the proof tier ("whatever int(., 16) rejects").  Judgement: real deviation from "malformed chunk
+   framing is reported as an I/O error", low severity (development server); fix with a HEXDIG full match or record as a
+   known finding under this one check name.
+3. response_chunked_to_http10
+   run_wsgi.write tests self.protocol_version (the server's, 1.1 for threaded/forking servers), not the request's
+   version: handler protocol HTTP/1.1, request "GET / HTTP/1.0", app start_response("200 OK", []) + [b"hello"] ->
+   "HTTP/1.1 200 OK ... Transfer-Encoding: chunked ... 5\r\nhello\r\n0\r\n\r\n".  An HTTP/1.0 client reads until close
+   and takes the framing as body (RFC 9112 6.1: MUST NOT send Transfer-Encoding unless the request indicates HTTP/1.1).
+   Whether this is in the domain depends on reading "on HTTP/1.1" as "the exchange" (violation) or "the server"
+   (by design - then drop this check; response_chunked_forbidden covers Content-Length/HEAD/1xx/204/304/1.0 server
+   and passes).  Judgement: borderline, maintainer's call.
+Oracle decisions without failures: a lone CR as last byte of the input is a valid chunk line end (upstream lists
+b"\r"); request header values are compared modulo surrounding SP/HT (http.client keeps trailing blanks); "//foo/bar"
+over the socket arrives as "/foo/bar" because CPython >= 3.12 rewrites it in http.server, make_environ's own
+"//netloc/path" branch is exercised by calling make_environ directly (environ_direct); "chunked only when" is checked in
+the statement's direction only.
+"""
+
 RULE = ("dev server: environ/method/path/query/headers/body seen by the app == what the client sent (Content-Length "
         "and every chunk framing x read pattern); bytes seen by the client == status/headers/body the app produced, "
         "chunked only if no Content-Length, HTTP/1.1, not HEAD/1xx/204/304; malformed chunk framing => OSError, "
@@ -66,8 +115,21 @@ def _alarm(signum, frame):
 # --------------------------------------------------------------------------- reference de-chunker
 
 
+_PYSPACE = b"\t\n\x0b\x0c\r\x1c\x1d\x1e\x1f \x85\xa0"
+_LENIENT = re.compile(rb"^[+-]?(0[xX]_?)?[0-9a-fA-F]+(_[0-9a-fA-F]+)*$")
+
+
+def _lenient_number(tok):
+    """classification only: a size line that is not 1*HEXDIG but that a forgiving number parser reads as a
+    non-negative number (sign, 0x prefix, digit separators, exotic white space)"""
+    t = tok.strip(_PYSPACE)
+    if not _LENIENT.match(t):
+        return False
+    return not (t.startswith(b"-") and t.strip(b"-+0xX_") != b"")
+
+
 def ref_dechunk(wire):
-    """-> (ok, payload).  ok: the wire holds a complete, well formed chunked body
+    """-> (ok, payload, reason).  ok: the wire holds a complete, well formed chunked body
     (anything after the last-chunk's line end is not part of it).  payload: the body if
     ok, else the payload bytes present on the wire before the malformation (incl. the
     available part of a chunk cut short), i.e. the most that may ever be delivered.
@@ -76,25 +138,31 @@ def ref_dechunk(wire):
     size-line  = *( SP / HT ) 1*HEXDIG *( SP / HT ) ( CRLF / LF )     (no extensions)
     line-end   = CRLF / LF / a lone CR when it is the very last byte of the input
     last chunk = size 0, no data, line-end
+
+    reason (why it is malformed): "truncated" (input ends inside a size line or inside chunk data),
+    "badsize" / "lenient_size" (size line is not a hex number / is one only for a forgiving parser),
+    "unterminated" (chunk data not followed by a line end).
     """
     pos = 0
     body = b""
     while True:
         nl = wire.find(b"\n", pos)
-        if nl < 0:
-            return False, body
-        line = wire[pos:nl]
+        line = wire[pos:] if nl < 0 else wire[pos:nl]
         if line.endswith(b"\r"):
             line = line[:-1]
         tok = line.strip(b" \t")
         if not tok or any(c not in HEXDIG for c in tok):
-            return False, body
+            if nl < 0 and (not tok or all(c in HEXDIG for c in tok.strip(b" \t\r"))):
+                return False, body, "truncated"
+            return False, body, "lenient_size" if _lenient_number(line) else "badsize"
+        if nl < 0:
+            return False, body, "truncated"
         size = int(tok, 16)
         pos = nl + 1
         data = wire[pos:pos + size]
         body += data
         if len(data) < size:
-            return False, body
+            return False, body, "truncated"
         pos += size
         if wire[pos:pos + 2] == b"\r\n":
             pos += 2
@@ -103,9 +171,9 @@ def ref_dechunk(wire):
         elif wire[pos:] == b"\r":
             pos += 1
         else:
-            return False, body
+            return False, body, "truncated" if pos >= len(wire) else "unterminated"
         if size == 0:
-            return True, body
+            return True, body, None
 
 
 def strict_dechunk(wire):
@@ -167,7 +235,7 @@ def drive(wire, mode, sizes, rf="bytesio"):
     d = _serving.DechunkedInput(make_rfile(wire, rf))
     top = io.BufferedReader(d, buffer_size=mode[1]) if mode[0] == "buffered" else d
     out = b""
-    cap = len(wire) + 8
+    cap = len(wire) + 5000  # a corrupted size line may announce up to a few thousand bytes
     i = 0
     try:
         while i < cap:
@@ -206,38 +274,40 @@ def drive(wire, mode, sizes, rf="bytesio"):
 
 
 def check_dechunk(col, wire, mode, sizes, rf="bytesio", tag="dechunk", ref=None):
-    ok, payload = ref if ref is not None else ref_dechunk(wire)
+    ok, payload, reason = ref if ref is not None else ref_dechunk(wire)
     col.count(tag)
     out, end, detail = drive(wire, mode, sizes, rf)
+    # failures are named after the reference's diagnosis of the wire, not after how the wire was generated
+    name = "dechunk" if ok else "dechunk_" + reason
 
     def fail(check, observed, expected):
-        if tag == "dechunk_lenient_size":
-            check = tag  # one finding: a size line that is not 1*HEXDIG was taken as a number
+        if reason == "lenient_size":
+            check = "dechunk_lenient_size"  # one finding: a size line that is not 1*HEXDIG was taken as a number
         col.fail(check, {"kind": "dechunk", "wire": wire, "mode": list(mode), "sizes": list(sizes),
                          "rfile": rf if isinstance(rf, str) else list(rf), "tag": tag}, observed, expected)
 
     if end == "BUFFER":
-        fail(tag + "_buffer", f"{detail}; delivered so far {out!r}", "0 <= r <= len(buf), buffer size and tail kept")
+        fail(name + "_buffer", f"{detail}; delivered so far {out!r}", "0 <= r <= len(buf), buffer size and tail kept")
         return 1
     if ok:
         if end != "EOF" or out != payload:
-            fail(tag + "_wellformed", f"delivered {out!r}, end {end} {detail}", f"{payload!r} then EOF")
+            fail(name + "_wellformed", f"delivered {out!r}, end {end} {detail}", f"{payload!r} then EOF")
             return 1
         return 0
     # malformed
     bad = 0
-    if tag == "dechunk_lenient_size":
+    if reason == "lenient_size":
         if end != "OSError" or not payload.startswith(out):
-            fail(tag, f"delivered {out!r}, end {end} {detail}", f"OSError after at most {payload!r}")
+            fail(name, f"delivered {out!r}, end {end} {detail}", f"OSError after at most {payload!r}")
             return 1
         return 0
     if not payload.startswith(out):
-        fail(tag + "_framing_as_data", f"delivered {out!r} (end {end} {detail})",
+        fail(name + "_framing_as_data", f"delivered {out!r} (end {end} {detail})",
              f"only payload bytes: a prefix of {payload!r}, then OSError")
         bad = 1
     if end != "OSError":
-        name = "_not_reported" if end in ("EOF", "UNSTABLE_EOF", "ENDLESS") else "_wrong_exception"
-        fail(tag + name, f"end {end} {detail}; delivered {out!r}", "OSError")
+        suffix = "_not_reported" if end in ("EOF", "UNSTABLE_EOF", "ENDLESS") else "_wrong_exception"
+        fail(name + suffix, f"end {end} {detail}; delivered {out!r}", "OSError")
         bad = 1
     return bad
 
@@ -356,7 +426,7 @@ def dechunk_jobs(thorough):
     """list of (tag, wire, [(mode, sizes, rf)...]) grouped by wire"""
     jobs = []
     fr_all = [(a, b) for a in (b"\r\n", b"\n") for b in (b"\r\n", b"\n")]
-    nmax = 7 if thorough else 6
+    nmax = 8 if thorough else 7
     modes = MODES_T if thorough else MODES_Q
     sizes = READ_SIZES_1 + READ_SIZES_2
     if thorough:
@@ -389,7 +459,7 @@ def dechunk_jobs(thorough):
             jobs.append(("dechunk", w, [(m, s, "bytesio") for m in modes for s in ((1,), (2,), (4,), (8,))]))
     mal_readers = [(m, s, "bytesio") for m in modes for s in ((1,), (2,), (3,), (4,), (8,), (1, 3), (2, 1))] + \
                   [(("readall",), (1,), "bytesio")]
-    for tag, w in malformed_wires(4 if not thorough else 5):
+    for tag, w in malformed_wires(5 if not thorough else 6):
         jobs.append((tag, w, mal_readers))
     return jobs
 
@@ -544,14 +614,14 @@ HEADER_SETS = (
 )
 
 
-def ref_headers(headers, host, override, body_cl, chunked):
+def ref_headers(headers, host, override, body_cl, chunked, te="chunked"):
     """expected environ entries (only header derived ones)"""
     exp = {}
     allh = [("Host", host)] + list(headers)
     if body_cl is not None:
         allh.append(("Content-Length", str(body_cl)))
     if chunked:
-        allh.append(("Transfer-Encoding", "chunked"))
+        allh.append(("Transfer-Encoding", te))
     for name, value in allh:
         if "_" in name:
             continue
@@ -569,12 +639,12 @@ def ref_headers(headers, host, override, body_cl, chunked):
     return exp
 
 
-def build_request(method, target, version, headers, host, body, chunked_wire):
+def build_request(method, target, version, headers, host, body, chunked_wire, te="chunked"):
     lines = [f"{method} {target} HTTP/{version}", f"Host: {host}"]
     for n, v in headers:
         lines.append(f"{n}: {v}")
     if chunked_wire is not None:
-        lines.append("Transfer-Encoding: chunked")
+        lines.append("Transfer-Encoding: " + te)
         payload = chunked_wire
     elif body is not None:
         lines.append(f"Content-Length: {len(body)}")
@@ -589,9 +659,10 @@ def check_request(col, method, target, version, headers, body, chunk_parts, size
     col.count("request")
     host = "srv.test"
     wire = None
+    te = framing[2] if len(framing) > 2 else "chunked"  # spelling of the (case-insensitive) coding name
     if chunk_parts is not None:
         wire = encode(body, chunk_parts, framing[0], framing[1], "x", b"0" + framing[0] + framing[1])
-    raw = build_request(method, target, version, headers, host, None if chunk_parts is not None else body, wire)
+    raw = build_request(method, target, version, headers, host, None if chunk_parts is not None else body, wire, te)
     seen = {}
 
     def app(environ, start_response):
@@ -608,7 +679,8 @@ def check_request(col, method, target, version, headers, body, chunk_parts, size
                     if not d:
                         break
                     got += d
-                    if i > 10000:
+                    if i > 32 + 2 * len(body or b""):
+                        seen["read_error"] = "no end of input after %d reads" % i
                         break
             else:
                 remaining = int(environ.get("CONTENT_LENGTH") or 0)
@@ -629,7 +701,7 @@ def check_request(col, method, target, version, headers, body, chunk_parts, size
     inp_desc = {"kind": "request", "method": method, "target": target, "version": version,
                 "headers": [list(h) for h in headers], "body": body,
                 "chunks": None if chunk_parts is None else list(chunk_parts), "sizes": list(sizes),
-                "half_close": half_close, "framing": [framing[0], framing[1]]}
+                "half_close": half_close, "framing": list(framing)}
     bad = 0
 
     def fail(check, observed, expected):
@@ -651,8 +723,11 @@ def check_request(col, method, target, version, headers, body, chunk_parts, size
     if env.get("SERVER_PROTOCOL") != "HTTP/" + version:
         fail("request_protocol", repr(env.get("SERVER_PROTOCOL")), "HTTP/" + version)
     exp = ref_headers(headers, host, override, None if chunk_parts is not None or body is None else len(body),
-                      chunk_parts is not None)
-    got_h = {k: v for k, v in env.items() if k.startswith("HTTP_") or k in ("CONTENT_TYPE", "CONTENT_LENGTH")}
+                      chunk_parts is not None, te.strip())
+    # optional white space around a field value is not part of the value (RFC 9110 5.5): compared modulo it
+    got_h = {k: v.strip(" \t") for k, v in env.items()
+             if k.startswith("HTTP_") or k in ("CONTENT_TYPE", "CONTENT_LENGTH")}
+    exp = {k: v.strip(" \t") for k, v in exp.items()}
     if got_h != exp:
         fail("request_headers", repr(got_h), repr(exp))
     if "read_error" in seen:
@@ -667,6 +742,46 @@ def check_request(col, method, target, version, headers, body, chunk_parts, size
     if p is None or not p[0].startswith("HTTP/1.1 200") or p[2] != b"ok":
         fail("request_response", f"{out[:200]!r} err={err}", "HTTP/1.1 200 OK ... ok")
     return bad
+
+
+DIRECT_TARGETS = ("//foo/bar", "//foo", "//foo//bar?x=//y", "//foo/caf%C3%A9?q", "//a:80/p", "/plain/p?q=1",
+                  "http://abs.example:81/p%20q?z")
+
+
+def check_environ_direct(col, target, method="GET"):
+    """make_environ on a handler whose request line was parsed by an http.server that does not rewrite '//...'
+    (CPython < 3.12 behaviour): a scheme-less '//netloc/path' target is the path '/netloc/path'."""
+    import http.client
+    col.count("environ_direct")
+    h = object.__new__(_H11)
+    h.server = _Server(None)
+    h.client_address = ("127.0.0.1", 4321)
+    h.path = target
+    h.command = method
+    h.request_version = "HTTP/1.1"
+    h.rfile = io.BytesIO(b"")
+    h.connection = object()
+    h.headers = http.client.parse_headers(io.BytesIO(b"Host: srv.test\r\nX-Foo: a\r\nX-Foo: b\r\n\r\n"))
+    inp = {"kind": "environ_direct", "target": target, "method": method}
+    try:
+        env = h.make_environ()
+    except Exception as e:  # noqa: BLE001
+        col.fail("environ_direct", inp, repr(e), "an environ")
+        return 1
+    m = _ABS.match(target)
+    if m:
+        path, query, host = ref_target(target)
+    else:
+        pathq = "/" + target.lstrip("/") if target.startswith("//") else target
+        p, _, query = pathq.partition("?")
+        path, host = pct_decode(p).decode("latin-1"), None
+    got = (env.get("PATH_INFO"), env.get("QUERY_STRING"), env.get("HTTP_HOST"), env.get("HTTP_X_FOO"),
+           env.get("REQUEST_METHOD"))
+    exp = (path, query, host or "srv.test", "a,b", method)
+    if got != exp:
+        col.fail("environ_direct", inp, repr(got), repr(exp))
+        return 1
+    return 0
 
 
 def request_cases(thorough, seed):
@@ -695,6 +810,10 @@ def request_cases(thorough, seed):
             for fr in ((b"\r\n", b"\r\n"), (b"\n", b"\n"), (b"\r\n", b"\n")):
                 for s in (READ_SIZES_1 + [(1, 2), (2, 1), (3, 1), (1, 4), (64,)]):
                     cases.append(("POST", "/c", "1.1", (), body, parts, s, True, fr))
+    # the transfer coding name is case-insensitive and may be padded
+    for te in ("Chunked", "CHUNKED", "chunked ", " chunked"):
+        for parts in ((), (3,), (1, 2)):
+            cases.append(("POST", "/te", "1.1", (), body0[:sum(parts)], parts, (2,), True, (b"\r\n", b"\r\n", te)))
     # clients that keep their side open (the usual case): a few, they cost a 10 ms drain each
     for n, parts in ((0, None), (3, None), (3, (1, 2)), (5, (5,)), (0, ())):
         cases.append(("POST", "/open", "1.1", (), body0[:n], parts, (2,), False, (b"\r\n", b"\r\n")))
@@ -884,13 +1003,23 @@ def _work(job):
                         break  # do not spend the budget on a tree that loops
                 finally:
                     signal.setitimer(signal.ITIMER_REAL, 0)
-        elif kind == "request":
+        elif kind in ("request", "response"):
             for c in items:
-                m, t, v, hs, body, parts, s, hc, fr = c
-                check_request(col, m, t, v, hs, body, parts, s, hc, fr or (b"\r\n", b"\r\n"))
-        elif kind == "response":
-            for c in items:
-                check_response(col, *c)
+                signal.setitimer(signal.ITIMER_REAL, HANG_S)
+                try:
+                    if kind == "request":
+                        m, t, v, hs, body, parts, s, hc, fr = c
+                        check_request(col, m, t, v, hs, body, parts, s, hc, fr or (b"\r\n", b"\r\n"))
+                    else:
+                        check_response(col, *c)
+                except Hang:
+                    col.fail(kind + "_hang", {"kind": kind + "_case", "case": list(c)}, f"no result within {HANG_S} s",
+                             "terminates")
+                    hangs += 1
+                    if hangs >= 2:
+                        break
+                finally:
+                    signal.setitimer(signal.ITIMER_REAL, 0)
     finally:
         signal.setitimer(signal.ITIMER_REAL, 0)
     return col.evaluations, col.counts, col.failures, col.per_check
@@ -913,7 +1042,7 @@ def run(tier, seed, reg=None):
         # seeded random wires: random bodies/chunkings, random corruption of one byte, random readers
         r = common.rng(seed, "c19wire")
         modes = MODES_T
-        for _ in range(60000):
+        for _ in range(150000):
             n = r.randint(0, 40)
             body = bytes(r.choice(b"ab\r\n0;x\xff") for _ in range(n))
             parts = []
@@ -950,6 +1079,11 @@ def run(tier, seed, reg=None):
     counts = {}
     per = {}
     fails = []
+    loc = _Col()
+    for t in DIRECT_TARGETS:
+        for m in ("GET", "POST"):
+            check_environ_direct(loc, t, m)
+    results = list(results) + [(loc.evaluations, loc.counts, loc.failures, loc.per_check)]
     for ev, cn, fl, pc in results:
         col.evaluations += ev
         for k, v in cn.items():
@@ -973,7 +1107,7 @@ def run(tier, seed, reg=None):
                   [{"check": "request", "input": common._j(list(rq[i][:7]))} for i in (0, len(rq) // 2)] + \
                   [{"check": "response", "input": common._j(list(rs[i]))} for i in (0, len(rs) // 2)]
     col.exhaustive = not thorough
-    nb = 7 if thorough else 6
+    nb = 8 if thorough else 7
     col.domain = (
         f"DechunkedInput direct: 2 body contents (letters; CR/LF/'0'/';' bytes) of length 0..{nb}, every split into "
         f"chunks, size-line and data terminators CRLF/LF (4 combinations), plus hex case / leading zeros / padded "
@@ -981,13 +1115,14 @@ def run(tier, seed, reg=None):
         f"of 1 or 2 read sizes out of 1..4 through {len(MODES_T if thorough else MODES_Q)} access modes (read, "
         f"readinto bytearray, readinto memoryview, BufferedReader with several buffer sizes) and read(-1), rfile a "
         f"BytesIO or a BufferedReader over 1-byte fragments; malformed: every truncation of every framing of bodies "
-        f"<= {5 if thorough else 4} bytes in <= 3 chunks, {len(BAD_SIZE_STRICT)} negative/non-hex/empty size lines "
+        f"<= {6 if thorough else 5} bytes in <= 3 chunks, {len(BAD_SIZE_STRICT)} negative/non-hex/empty size lines "
         f"and {len(LENIENT_SPELLINGS)} sign/0x/underscore/odd-space spellings of the true size at every chunk position, 7 wrong chunk "
         f"terminators at every chunk end ({counts.get('dechunk', 0) if False else sum(len(x[2]) for x in dj)} "
         f"wire x reader cases). Socket pair: {len(TARGETS)} request targets x methods x HTTP/1.0,1.1; "
         f"{len(HEADER_SETS)} header sets; Content-Length bodies 0..{12 if thorough else 7} bytes x 17 read patterns; "
         f"chunked bodies 0..{6 if thorough else 5} bytes x every chunking x 3 framings x 9 read patterns; "
-        f"({len(rq)} requests). Responses: {len(STATUSES)} statuses x Content-Length none/given/lower-case x "
+        f"Transfer-Encoding spelled chunked/Chunked/CHUNKED/padded ({len(rq)} requests); make_environ called "
+        f"directly for {len(DIRECT_TARGETS)} targets incl. the scheme-less '//netloc/path' form. Responses: {len(STATUSES)} statuses x Content-Length none/given/lower-case x "
         f"GET/HEAD/POST x server protocol 1.0/1.1 x request version 1.0/1.1 x body piece lists of length 0..3 over "
         f"{len(PIECES)} pieces (quick: 0..2 off the main axis) x pieces sent through write() 0/1/all "
         f"({len(rs)} responses)."
@@ -1033,9 +1168,26 @@ def replay(payload):
         check_request(col, inp["method"], inp["target"], inp["version"], _tup(inp["headers"]), inp["body"],
                       None if parts is None else tuple(parts), tuple(inp["sizes"]), inp["half_close"],
                       tuple(inp["framing"]))
+    elif kind == "environ_direct":
+        check_environ_direct(col, inp["target"], inp["method"])
     elif kind == "response":
         check_response(col, inp["status"], inp["cl_mode"], _tup(inp["headers"]), tuple(inp["chunks"]),
                        inp["n_write"], inp["method"], inp["server_protocol"], inp["request_version"])
+    elif kind in ("request_case", "response_case"):
+        c = _tup(inp["case"])
+        old = signal.signal(signal.SIGALRM, _alarm)
+        signal.setitimer(signal.ITIMER_REAL, HANG_S)
+        try:
+            if kind == "request_case":
+                m, t, v, hs, body, parts, s, hc, fr = c
+                check_request(col, m, t, v, hs, body, parts, s, hc, fr or (b"\r\n", b"\r\n"))
+            else:
+                check_response(col, *c)
+        except Hang:
+            return True
+        finally:
+            signal.setitimer(signal.ITIMER_REAL, 0)
+            signal.signal(signal.SIGALRM, old)
     else:
         raise ValueError(kind)
     names = {f["check"] for f in col.failures}
